@@ -56,6 +56,9 @@ def gen_sense(rng):
 
 def gen_fault(rng):
     r = rng.random()
+    if r < 0.04:
+        # CHECK CONDITION for which the transport has no sense data (autosense failed)
+        return {"kind": "sense_payload", "sense": "", "no_sense": True}
     if r < 0.12:
         return {"kind": "ioctl_error", "errno": rng.choice([5, 19, 16])}
     if r < 0.55:
@@ -236,7 +239,17 @@ def judge(dev, op, kind, val, deliveries, cmd, V, where):
             V.append(dict(oracle="C07.raw-sense-modified", where=where, detail="raw=1",
                           expected=handed.hex(), actual=repr(cmd.raw_sense_data)[:120]))
         return
-    # any other non-GOOD completion (incl. CHECK CONDITION without sense)
+    if st == S.CHECK_CONDITION and d["transport"] == "iscsi":
+        # CHECK CONDITION, but the binding has no sense data for it: it still is a CHECK CONDITION and must surface as one
+        WORLD.probe("cc_without_sense")
+        cc_cls = getattr(dev_cls, "CheckCondition", None)
+        if kind == "ok":
+            V.append(dict(oracle="C07.cc-looks-successful", where=where, detail="no-sense", expected="CheckCondition", actual="returned normally"))
+        elif not (isinstance(cc_cls, type) and isinstance(val, cc_cls)):
+            V.append(dict(oracle="C07.cc-wrong-exception", where=where, detail="no-sense/" + type(val).__name__,
+                          expected="%s.CheckCondition (the target reported CHECK CONDITION; no sense data was available)" % dev_cls.__name__, actual=repr(val)[:120]))
+        return
+    # any other non-GOOD completion (incl. CHECK CONDITION without sense on SG_IO, where the binding reports only an unspecified error)
     if kind == "ok":
         V.append(dict(oracle="C07.status-looks-successful", where=where, detail="status=%#04x" % st,
                       expected="an exception for status %#04x" % st, actual="returned normally"))
